@@ -983,6 +983,28 @@ pub fn run_c13(rep: &mut Report, thorough: bool) {
                 sibling_conv_stage(rep, &env.cfg, "C13", "http-sibling-connections", &busy_convs());
             }
         }
+        // a request that FAILED stays failed: a malformed first segment (valid method and signature,
+        // then a header line without colon / a bad version / a bare LF in the request line / an
+        // over-long method), then a complete valid request in the next segment: the stream as a
+        // whole is not a request
+        {
+            let bad: Vec<Vec<u8>> = vec![
+                b"GET /a HTTP/1.1\r\nno colon here\r\n".to_vec(),
+                b"GET /a HTTP/1.1\r\n: empty name\r\n".to_vec(),
+                b"GET /a HTTX/1.1\r\n".to_vec(),
+                b"GET /a HTTP/1.x\r\n".to_vec(),
+                b"GET  /a HTTP/1.1\r\n".to_vec(),
+                b"GET /a\r\n".to_vec(),
+                b"POST /a HTTP/1.0\nbad header\n".to_vec(),
+                b"OPTIONS\r\n".to_vec(),
+            ];
+            let good: Vec<Vec<u8>> = vec![b"GET /b HTTP/1.1\r\nHost: x\r\n\r\n".to_vec(), b"HEAD / HTTP/1.0\n\n".to_vec(), b"\r\nGET /c HTTP/1.1\r\n\r\n".to_vec()];
+            let dims = [bad.len() as u64, good.len() as u64, 2];
+            sweep_conv(rep, &env, &format!("http-failed-then-request-{}", tag), "8 malformed first segments (valid signature) x 3 complete requests as second segment x {v4,v6}", product(&dims), |i| {
+                let d = unrank(i, &dims);
+                (Path { tcp: true, v6: d[2] == 1, ports: d[2] as usize }, vec![bad[d[0] as usize].clone(), good[d[1] as usize].clone()])
+            });
+        }
         // keep-alive: a second and third complete request on a connection whose earlier requests
         // were answered
         {
